@@ -61,6 +61,10 @@ def orE (x y : R) : R := match x with
 def notE (x : R) : R := match x with
   | .ok b => .ok (!b)
   | r => r
+/-- `k if v is True else v` (the early `return False` after a failed sub-test) -/
+def guardE (v k : R) : R := match v with
+  | .ok true => k
+  | r => r
 /-- `all(f(x) for x in l)` -/
 def allE {α : Type} (l : List α) (f : α → R) : R := match l with
   | [] => .ok true
@@ -226,9 +230,8 @@ def brLe (a bj : DHint) : R :=
   | .annotated h md =>
       match bj with
       | .annotated h' md' =>
-          (match le h h' with          -- [fix] `not metahint.is_subhint(branch metahint)` (was `metahint > branch metahint`)
-           | .ok true => .ok (md.length == md'.length && md == md')
-           | r => r)
+          -- [fix] `not metahint.is_subhint(branch metahint)` (was `metahint > branch metahint`)
+          guardE (le h h') (.ok (md.length == md'.length && md == md'))
       | _ => le h bj
   | .literal ms =>
       match bj with
@@ -381,7 +384,7 @@ mutual
     theorem in Props/C19.lean that is replayed on the real code): no `Any`; members of a union and
     bounds/constraints of a TypeVar are not themselves unions/TypeVars; the constraints of a TypeVar
     are all ignorable or none is; the members of a Literal have one type; no `Callable`; container
-    origins are proper classes (`object` is not a subclass of them). -/
+    origins are proper classes (neither `object` nor the class fabricated for a NewType). -/
 def DHint.Reg : DHint → Prop
   | .any => False
   | .cls _ => True
@@ -391,13 +394,21 @@ def DHint.Reg : DHint → Prop
   | .annotated h _ => h.Reg
   | .tupleFixed hs => RegAll hs
   | .tupleVar h => h.Reg
-  | .cont _ o h => h.Reg ∧ D.W.sub cObject o = false
-  | .mapping o k v => k.Reg ∧ v.Reg ∧ D.W.sub cObject o = false
+  | .cont _ o h => h.Reg ∧ o ≠ cObject ∧ D.ntParent o = none
+  | .mapping o k v => k.Reg ∧ v.Reg ∧ o ≠ cObject ∧ D.ntParent o = none
   | .callable _ _ _ _ => False
 def RegAll : List DHint → Prop
   | [] => True
   | h :: hs => h.Reg ∧ RegAll hs
 end
+
+/-- origins of subscripted hints are proper classes (never `object`), along the recursion of `==` -/
+def DHint.Proper : DHint → Prop
+  | .cont _ o h => o ≠ cObject ∧ h.Proper
+  | .mapping o k v => o ≠ cObject ∧ k.Proper ∧ v.Proper
+  | .tupleVar h => h.Proper
+  | .annotated h _ => h.Proper
+  | _ => True
 
 /-! ### the wrapper as a container: len / iter / getitem / contains / args / hash, and the factory -/
 
